@@ -25,6 +25,7 @@ def gen_hier(r):
     nq = 2 + r.below(8)
     parents = [-1 if i < 2 else (r.below(i) if not r.chance(1, 6) else -1) for i in range(nq)]
     conc = [r.below(2) for _ in range(nq)]
+    if r.chance(1, 3): parents[0] = -2      # member 0 is a global (root) queue: keys may sit on it, other members target it
     vals = []
     for q in range(nq):
         for k in range(4):
